@@ -190,6 +190,18 @@ def rule_finish_flush(facts, tname, field, r2):
                     r2.bad("%s|none-ok" % fn, "finish can succeed after a failed write", where)
                 else:
                     r2.ok("path", {"None arm of finish": "Err only"})
+        if not found:
+            # `self.state.take().ok_or_else(|| Error..)?`: the None case is turned into an error by ok_or / ok_or_else and
+            # propagated - the same refusal, without a switch in this body
+            for blk in b.calls():
+                nm = flow.declared(blk.term) or ""
+                if nm.endswith(("Option::ok_or_else", "Option::ok_or")) and blk.term.args and \
+                        pat.has_call(tm.of_operand(blk.term.args[0]), "Option::take"):
+                    nb = b.blocks[blk.term.target] if blk.term.target is not None else None
+                    if nb is not None and flow.is_try_branch(nb.term):
+                        found = True
+                        r2.sites += 1
+                        r2.ok("path", {"None arm of finish": "ok_or_else(..)? - Err only"})
         r2.need("None arm in finish", found)
     fl = [b for b in facts.bodies if b.trait == "std::io::Write" and b.item == "flush" and b.self_ty is not None
           and b.self_ty.name == tname]
